@@ -438,15 +438,23 @@ def make_tasks(env: Env, broker: ScriptedBroker, cfg: Dict[str, Any]) -> None:
         uc = "True" if by_id[k]["cached"] else "False"
         params.append(f"k{k}=TaskiqDepends(FNS[{k}], use_cache={uc})")
     sig = ", ".join(params)
+    sig_s = sig
+    if cfg.get("ctxvia"):
+        # task `ts` reaches its Context only through an un-cached dependency (its own graph does not mention Context),
+        # while `ta`, possibly in flight next to it, depends on Context directly
+        sig_s = ", ".join(params[:2] + ["ctx=TaskiqDepends(GETCTX, use_cache=False)"] + params[3:])
     src = (
         f"async def ta({sig}):\n"
         f"    return await BODY_A(i, MID(ctx.message.task_id), v)\n"
-        f"def ts({sig}):\n"
+        f"def ts({sig_s}):\n"
         f"    return BODY_S(i, MID(ctx.message.task_id), v)\n"
     )
+    def get_ctx(ctx: Context = TaskiqDepends()) -> Context:
+        return ctx
+
     glb = {
         "FNS": fns, "Context": Context, "TaskiqDepends": TaskiqDepends, "BODY_A": body_async, "Any": Any,
-        "BODY_S": body_sync, "MID": _mid, "__name__": __name__,
+        "BODY_S": body_sync, "MID": _mid, "__name__": __name__, "GETCTX": get_ctx,
     }
     exec(src, glb)  # noqa: S102
     broker.register_task(glb["ta"], task_name="ta")
